@@ -82,12 +82,16 @@ Definition latest (n : name) (l : list (name * V)) : option V :=
 (* ---------------- the monitor (needs decidable equality on value-ids) *)
 Variable veqb : V -> V -> bool.
 
-Fixpoint idx_from (n : name) (v : V) (l : list (name * V)) (k : nat) : option nat :=
-  match l with
-  | [] => None
-  | (n', v') :: r => if neqb n' n && veqb v' v then Some k else idx_from n v r (S k)
-  end.
-Definition idx_of (n : name) (v : V) (l : list (name * V)) : option nat := idx_from n v l 0.
+(* The same (name, value) may occur several times in the install list (the service re-activates
+   an older version: a NEW install of the same bytes).  A read is then justified by ANY of its
+   occurrences that is not older than the last install of that name completed before the read.
+   The monitor first ASSIGNS an occurrence to every read (greedily: per reader and name the
+   smallest admissible index not below the one assigned to the previous read) and then CHECKS the
+   assignment; only the check matters for soundness. *)
+
+(* is installs[i] = (n, v) ? *)
+Definition at_idx (l : list (name * V)) (i : nat) (n : name) (v : V) : bool :=
+  match nth_error l i with Some (n', v') => neqb n' n && veqb v' v | None => false end.
 
 (* no install of n at any position j with i < j < pos *)
 Fixpoint none_between (n : name) (l : list (name * V)) (k i pos : nat) : bool :=
@@ -96,26 +100,54 @@ Fixpoint none_between (n : name) (l : list (name * V)) (k i pos : nat) : bool :=
   | (n', _) :: r => negb ((i <? k) && (k <? pos) && neqb n' n) && none_between n r (S k) i pos
   end.
 
-Definition read_ok (installs : list (name * V)) (x : rd) : bool :=
-  match idx_of (rd_name x) (rd_val x) installs with
-  | None => false                                               (* never served for that name *)
-  | Some i => none_between (rd_name x) installs 0 i (rd_pos x)  (* an install completed before the read is not missed *)
+(* later reads of the same reader and name were assigned an index that is not smaller *)
+Fixpoint later_ok (r : nat) (n : name) (i : nat) (log : list rd) (ann : list nat) : bool :=
+  match log, ann with
+  | x :: lr, j :: ar => (negb ((rd_reader x =? r) && neqb (rd_name x) n) || (i <=? j)) && later_ok r n i lr ar
+  | _, _ => true
   end.
 
-(* per reader and name, the install index never decreases (annotated log: (reader, name, index)) *)
-Fixpoint mono (l : list (nat * name * nat)) : bool :=
+Fixpoint check_ann (installs : list (name * V)) (log : list rd) (ann : list nat) : bool :=
+  match log, ann with
+  | [], [] => true
+  | x :: lr, i :: ar =>
+    at_idx installs i (rd_name x) (rd_val x)                       (* served for that name *)
+    && none_between (rd_name x) installs 0 i (rd_pos x)             (* no completed install of it is missed *)
+    && later_ok (rd_reader x) (rd_name x) i lr ar                   (* per reader and name: install order *)
+    && check_ann installs lr ar
+  | _, _ => false
+  end.
+
+(* --- the greedy assignment *)
+(* smallest index >= lo holding (n, v) *)
+Fixpoint idx_ge (n : name) (v : V) (l : list (name * V)) (k lo : nat) : option nat :=
   match l with
-  | [] => true
-  | (r, n, i) :: rest =>
-    forallb (fun '(r', n', i') => negb ((r' =? r) && neqb n' n) || (i <=? i')) rest && mono rest
+  | [] => None
+  | (n', v') :: r => if (lo <=? k) && neqb n' n && veqb v' v then Some k else idx_ge n v r (S k) lo
   end.
-
-Definition annotate (installs : list (name * V)) (log : list rd) : list (nat * name * nat) :=
-  map (fun x => (rd_reader x, rd_name x,
-                 match idx_of (rd_name x) (rd_val x) installs with Some i => i | None => O end)) log.
+(* the last index below pos holding an install of n (0 if none) *)
+Fixpoint last_before (n : name) (l : list (name * V)) (k pos acc : nat) : nat :=
+  match l with
+  | [] => acc
+  | (n', _) :: r => last_before n r (S k) pos (if (k <? pos) && neqb n' n then k else acc)
+  end.
+Fixpoint seen_idx (r : nat) (n : name) (seen : list (nat * name * nat)) : nat :=
+  match seen with
+  | [] => O
+  | (r', n', i) :: t => if (r' =? r) && neqb n' n then i else seen_idx r n t
+  end.
+Fixpoint assign_from (installs : list (name * V)) (seen : list (nat * name * nat)) (log : list rd) : list nat :=
+  match log with
+  | [] => []
+  | x :: r =>
+    let lo := Nat.max (seen_idx (rd_reader x) (rd_name x) seen) (last_before (rd_name x) installs 0 (rd_pos x) 0) in
+    let i := match idx_ge (rd_name x) (rd_val x) installs 0 lo with Some i => i | None => length installs end in
+    i :: assign_from installs ((rd_reader x, rd_name x, i) :: seen) r
+  end.
+Definition assign (installs : list (name * V)) (log : list rd) : list nat := assign_from installs [] log.
 
 Definition reads_ok (installs : list (name * V)) (log : list rd) : bool :=
-  forallb (read_ok installs) log && mono (annotate installs log).
+  check_ann installs log (assign installs log).
 
 End Readers.
 
